@@ -27,6 +27,8 @@ def run(check):
     check.run_rule('C19.R2p', lambda c: rule_posindex(c, 'C19.R2'))
     check.run_rule('C19.R3', lambda c: rule_mask_partial(c, M.mask(), 'C19.R3'))
     check.run_rule('C19.R4', lambda c: rule_partial_discovery(c, 'C19.R4'))
+    from ..rules_discovery import rule_translation
+    check.run_rule('C19.R4c', lambda c: rule_translation(c, {'translate': 'C19.R4', 'fallback': None}))
     check.run_rule('C19.R4b', lambda c: rule_hint_protocol(c, 'C19.R4'))
     # bound positionals disappear: consumption order and trip count of the mask
     check.run_rule('C19.R2c', lambda c: rule_mask_consume(c, M.mask(), 'C19.R2'))
